@@ -22,13 +22,15 @@ pub async fn declaration(
             let DocumentCursor { doc, context, .. } = cursor;
             if let Some(entry) = context {
                 match &entry {
-                    GlobalEntry::Type(t) => {
+                    GlobalEntry::Type(_) => {
                         // early return for int;
                         if &ident.value == "int" {
                             return Ok(None);
                         }
                         if let Some(entry) = doc.table.lookup(&ident.value) {
-                            let tokens = &doc.tokens[t.to_range()];
+                            // the name's range is relative to the declaration of the found entry,
+                            // not to the declaration the cursor is in
+                            let tokens = &doc.tokens[entry.to_range()];
                             return Ok(Some(Location {
                                 uri,
                                 range: as_pos_range(&entry.to_text_range(tokens), &doc.text),
@@ -130,21 +132,18 @@ pub async fn type_definition(
                                 Entry::Procedure(_) => { /* no type definition */ }
                                 Entry::Variable(v) | Entry::Parameter(v) => {
                                     if let Some(DataType::Array { creator, .. }) = &v.data_type {
-                                        let entry =
-                                            doc.table.lookup(creator).expect("Invalid creator");
-                                        match entry {
-                                            GlobalEntry::Type(t) => {
-                                                return Ok(Some(Location {
-                                                    uri,
-                                                    range: as_pos_range(
-                                                        &entry.to_text_range(
-                                                            &doc.tokens[t.to_range()],
-                                                        ),
-                                                        &doc.text,
-                                                    ),
-                                                }));
-                                            }
-                                            _ => panic!("Creator must be a type"),
+                                        // the creator of an anonymous array type is the variable itself,
+                                        // so there is no type declaration to go to
+                                        if let Some(entry @ GlobalEntry::Type(t)) =
+                                            doc.table.lookup(creator)
+                                        {
+                                            return Ok(Some(Location {
+                                                uri,
+                                                range: as_pos_range(
+                                                    &entry.to_text_range(&doc.tokens[t.to_range()]),
+                                                    &doc.text,
+                                                ),
+                                            }));
                                         }
                                     }
                                     /* cannot look up primitive types */
@@ -177,7 +176,13 @@ pub async fn implementation(
                             local_table: Some(&p.local_table),
                         };
                         if let Some(entry) = lookup_table.lookup(&ident.value) {
-                            let tokens = &doc.tokens[p.to_range()];
+                            // predefined procedures have no implementation in this document
+                            if entry.is_default() {
+                                return Ok(None);
+                            }
+                            // the name's range is relative to the declaration of the found procedure,
+                            // not to the procedure the cursor is in
+                            let tokens = &doc.tokens[entry.to_range()];
                             if let Entry::Procedure(_) = entry {
                                 return Ok(Some(Location {
                                     uri,
